@@ -202,11 +202,10 @@ def gen_hist(rng, lane, stripped=False):
                 bld[v] = rng.below(2)                # the same variable through two builders: correspondence only
             h.ops.append(f'look {bld[v]} {mode[v]} {v}')
             h.meta.append(('look', v, None))
-            if canceled[v] is False:
-                valid[v].append(nh)
-            else:
-                valid[v] = [nh]
-                canceled[v] = False
+            # one mocker per (builder, variable) for ever (fix F27): every handle ever obtained stays valid, also one
+            # kept across Cancel/Reset and a re-lookup
+            valid[v].append(nh)
+            canceled[v] = False if canceled[v] is None else canceled[v]
             allh.append((nh, v))
             nh += 1
             continue
@@ -437,6 +436,11 @@ def execute(lines, tag, stripped=False):
 
 
 CORPUS = [  # the confirmed defects of F8 and their relatives, run first on every seed
+    # a handle kept across Cancel and a re-lookup must stay the builder's mocker (F27)
+    ('disc', 'int=int:1', ['look 0 p int', 'set 0 int:2', 'cancel 0', 'look 0 p int', 'set 0 int:3', 'reset 0'],
+     [('look', 'int', None), ('set', 'int', 'int:2'), ('cancel', 'int', None), ('look', 'int', None), ('set', 'int', 'int:3'), ('reset', ['int'], None)]),
+    ('disc', 'map=map:1', ['look 1 u map', 'apply 0 ret:map:2', 'reset 1', 'look 1 u map', 'set 0 map:3', 'cancel 1'],
+     [('look', 'map', None), ('apply', 'map', 'map:2'), ('reset', ['map'], None), ('look', 'map', None), ('set', 'map', 'map:3'), ('cancel', 'map', None)]),
     # same unexported variable looked up again under a pending Pkg(..) override: must be the same mocker
     ('disc', 'int=int:1', ['look 0 u int', 'set 0 int:2', 'pkg 0 1', 'look 0 u int', 'set 1 int:3', 'cancel 1'],
      [('look', 'int', None), ('set', 'int', 'int:2'), ('pkg', None, None), ('look', 'int', None), ('set', 'int', 'int:3'), ('cancel', 'int', None)]),
@@ -569,12 +573,51 @@ def run(tier):
     if kwhy:
         out.violation(f'{kh.line()}: {kwhy[1]}', {'kind': 'impl-oracle', 'ops': [kh.line()], 'meta': kh.meta, 'vars': kh.vars, 'init': kh.init,
                                                  'observed': kimpl[0], 'why': kwhy[1], 'class': 'ue-iface-var'}, key='ue-iface-var')
+    # 1c. known finding: one variable addressed by pointer AND by name in one builder (two cache keys, two mockers)
+    mh = []
+    for ty in ['int', 'string', 'slice', 'struct']:
+        for tail in (['cancel 0', 'cancel 1'], ['reset 0']):
+            m = Hist()
+            m.lane, m.vars, m.init = 'mixed', [ty], {ty: f'{ty}:1'}
+            m.ops = [f'look 0 p {ty}', f'look 0 u {ty}', f'set 0 {ty}:2', f'set 1 {ty}:3'] + tail
+            m.meta = [('look', ty, None), ('look', ty, None), ('set', ty, f'{ty}:2'), ('set', ty, f'{ty}:3')] + \
+                     [('cancel', ty, None) if t.startswith('cancel') else ('reset', [ty], None) for t in tail]
+            mh.append(m)
+    mlines = [m.line() for m in mh]
+    mimpl, mmodel, _, _ = execute(mlines, 'c08-mixed')
+    for m, ob in zip(mh, mimpl):
+        w = oracle(m, ob)
+        if w and w[2].split(':')[0] in ('restore', 'untouched'):
+            out.violation(f'{m.line()}: step {w[0]}: {w[1]}', {'kind': 'impl-oracle', 'ops': [m.line()], 'meta': m.meta, 'vars': m.vars, 'init': m.init,
+                                                               'observed': ob, 'why': w[1], 'class': 'mixed-addressing'}, key='mixed-addressing')
+        elif w:
+            out.violation(f'{m.line()}: step {w[0]}: {w[1]}', {'kind': 'impl-oracle', 'ops': [m.line()], 'meta': m.meta, 'vars': m.vars, 'init': m.init,
+                                                               'observed': ob, 'why': w[1], 'class': w[2]})
+    # 1d. known finding: an interface-typed variable cannot be mocked to nil (Set(nil) / a callback returning a nil interface)
+    nh_ = []
+    for ops, meta in ((['look 0 p err', 'set 0 nil'], [('look', 'err', None), ('set', 'err', 'nil')]),
+                      (['look 0 p any', 'apply 0 reti:nil'], [('look', 'any', None), ('apply', 'any', 'nil')])):
+        m = Hist()
+        v = meta[0][1]
+        m.lane, m.vars, m.init, m.ops, m.meta = 'nil', [v], {v: 'perr:1'}, ops, meta
+        nh_.append(m)
+    nimpl, nmodel, _, _ = execute([m.line() for m in nh_], 'c08-nil')
+    for m, ob in zip(nh_, nimpl):
+        w = oracle(m, ob)
+        if w and w[2].endswith('-rejected:panic:setZeroValue'):
+            out.violation(f'{m.line()}: step {w[0]}: {w[1]}', {'kind': 'impl-oracle', 'ops': [m.line()], 'meta': m.meta, 'vars': m.vars, 'init': m.init,
+                                                               'observed': ob, 'why': w[1], 'class': 'set-nil-interface'}, key='set-nil-interface')
+        elif w:
+            out.violation(f'{m.line()}: step {w[0]}: {w[1]}', {'kind': 'impl-oracle', 'ops': [m.line()], 'meta': m.meta, 'vars': m.vars, 'init': m.init,
+                                                               'observed': ob, 'why': w[1], 'class': w[2]})
     # 2. correspondence
     diffs = []
     if model is None:
         proof['failed'].append(('goomdrv', 'driver does not build: ' + derr[-500:]))
     else:
-        for ls, im, mo in ((lines, impl, model), (slines, simpl, smodel)):
+        det = [i for i, l in enumerate(mlines) if ' reset ' not in l]     # Reset over two mockers of one variable is order-dependent
+        for ls, im, mo in ((lines, impl, model), (slines, simpl, smodel), ([mlines[i] for i in det], [mimpl[i] for i in det], [mmodel[i] for i in det]),
+                           ([m.line() for m in nh_], nimpl, nmodel)):
             for i, l in enumerate(ls):
                 if not model_prefix_equal(im[i], mo[i] if i < len(mo) else None):
                     diffs.append((l, im[i], mo[i] if i < len(mo) else None, legacy[i] if ls is lines and legacy and i < len(legacy) else None))
